@@ -523,6 +523,25 @@ def bindArgs {γ : Type} (params : List String) (pos : List γ) (kwargs : List (
     if kwargs.any (fun kv => hasKey kv.1 named || !(params.contains kv.1)) then .error .type
     else .ok (named ++ kwargs)
 
+/-- `sig.bind(*pos, **kwargs)` for a function whose positional-or-keyword parameters are `posParams`,
+    followed by the keyword-only parameters `kwOnly`: the positionals are named in order; too many
+    positionals, an unknown keyword or a keyword already bound positionally is a `TypeError` -/
+def bindCall {γ : Type} (posParams kwOnly : List String) (pos : List γ) (kwargs : List (String × γ)) :
+    Res (List (String × γ)) :=
+  if posParams.length < pos.length then .error .type
+  else
+    let named := List.zip posParams pos
+    if kwargs.any (fun kv => hasKey kv.1 named || !((posParams ++ kwOnly).contains kv.1)) then .error .type
+    else .ok (named ++ kwargs)
+
+/-- a wrapped reduction called as `snp.f(*args, **kwargs)`: bind, then `add_full_reduction` -/
+def reductionCall {α δ : Type} [DecidableEq δ] (E : Env α δ) (posParams kwOnly : List String)
+    (f : List (PyVal α) → List (String × PyVal α) → Res α) (ravelCat : List α → Res α)
+    (args : List (PyVal α)) (kwargs : List (String × PyVal α)) : Res (PyVal α) :=
+  match bindCall posParams kwOnly args kwargs with
+  | .error e => .error e
+  | .ok bound => addFullReduction (fun b => mapFuncOverBlocks E f [] b) ravelCat bound
+
 /-- `scico.random.<name>` = `_add_seed(map_func_over_tuple_of_tuples(jax.random.<name>))`;
     `g` is `jax.random.<name>` called with bound keyword arguments -/
 def randomWrapped {α δ κ σ β : Type} [DecidableEq δ] (E : Env α δ) (P : RngPrims κ σ β)
